@@ -9,7 +9,10 @@ import (
 	"math/rand"
 	"net"
 	"net/netip"
+	"runtime"
+	"runtime/debug"
 	"strconv"
+	"strings"
 	"testing"
 	"time"
 
@@ -47,6 +50,10 @@ func runAllocs(vecs []*vector, tab *table, seed int64, cfg int, ids map[int]bool
 			continue
 		}
 		cnt["alloc_cases"]++
+		if strings.HasPrefix(v.Status, "ping-pending-") {
+			measurePendingPing(v, s, u, seed, emit, cnt)
+			continue
+		}
 		rng := caseRand(seed, 0, v.S)
 		data := buildFrame(v.S, rng, u, true, "random")
 		buf := make([]byte, len(data), len(data)+64)
@@ -297,5 +304,101 @@ func runAllocSets(vecs []*vector, u *vh.Universe, seed int64, ids map[int]bool, 
 			emit(rec{T: "mm", ID: v.ID, Prop: "C16", What: "allocs", View: "Parse", G: what, Exp: "0",
 				Got: fmt.Sprintf("%.0f allocations per round of %d interleaved frames of tracked, online hosts (%s)", n, len(frames), what)})
 		}
+	}
+}
+
+// measurePendingPing (spec: status ping-pending-N): the echo reply of a tracked, online host that wakes a pending
+// Ping / Ping6.  Every measured Parse needs a fresh pending ping, so the allocations of the single call are
+// counted directly (runtime.MemStats.Mallocs around the call, one P, GC off) and the minimum over the
+// repetitions is taken: noise of other goroutines can only add.
+func measurePendingPing(v *vector, s *packet.Session, u *vh.Universe, seed int64, emit func(rec), cnt map[string]int) {
+	waiters := 1
+	if v.Status == "ping-pending-2" {
+		waiters = 2
+	}
+	if v.X.Log == "default" {
+		packet.Logger.SetLevel(fastlog.LevelInfo)
+	}
+	defer packet.Logger.SetLevel(fastlog.LevelError)
+	rng := caseRand(seed, 0, v.S)
+	data := buildFrame(v.S, rng, u, true, "random")
+	off := 54
+	if v.S.Path == "ip4" {
+		off = 34
+	}
+	buf := make([]byte, len(data), len(data)+64)
+	copy(buf, data)
+	buf[off+4], buf[off+5] = 0xff, 0xfe // an id nobody waits for: primes the host
+	if fr, err := s.Parse(buf); err != nil || fr.Host == nil || !fr.Host.Online {
+		emit(rec{T: "drift", ID: v.ID, What: "alloc-precondition", View: "Parse", Exp: "host tracked and online", Got: fmt.Sprint(err)})
+		return
+	}
+	peer := packet.Addr{MAC: net.HardwareAddr(append([]byte{}, buf[6:12]...))}
+	ping := func() {
+		if v.S.Path == "ip4" {
+			peer.IP = netip.AddrFrom4(*(*[4]byte)(buf[26:30]))
+			s.Ping(peer, 2*time.Second)
+		} else {
+			peer.IP = netip.AddrFrom16(*(*[16]byte)(buf[22:38]))
+			s.Ping6(packet.Addr{MAC: vh.OwnMAC, IP: vh.HostLLA}, peer, 2*time.Second)
+		}
+	}
+	best := uint64(1 << 62)
+	const reps = 12
+	for r := 0; r < reps; r++ {
+		before := map[uint16]bool{}
+		for _, id := range packet.VerifPingWaiterIDs() {
+			before[id] = true
+		}
+		for i := 0; i < waiters; i++ {
+			go ping()
+		}
+		var ids []uint16
+		for i := 0; i < 4000 && len(ids) < waiters; i++ {
+			ids = ids[:0]
+			for _, x := range packet.VerifPingWaiterIDs() {
+				if !before[x] {
+					ids = append(ids, x)
+				}
+			}
+			if len(ids) < waiters {
+				time.Sleep(100 * time.Microsecond)
+			}
+		}
+		if len(ids) < waiters {
+			cnt["ping_pending_not_registered"]++
+			continue
+		}
+		buf[off+4], buf[off+5] = byte(ids[0]>>8), byte(ids[0])
+		var m1, m2 runtime.MemStats
+		gc := debug.SetGCPercent(-1)
+		procs := runtime.GOMAXPROCS(1)
+		runtime.ReadMemStats(&m1)
+		_, perr := s.Parse(buf)
+		runtime.ReadMemStats(&m2)
+		runtime.GOMAXPROCS(procs)
+		debug.SetGCPercent(gc)
+		if perr != nil {
+			emit(rec{T: "mm", ID: v.ID, Prop: "C16", What: "alloc-case-rejected", View: "Parse", Exp: "well-formed frame accepted", Got: perr.Error()})
+			return
+		}
+		if d := m2.Mallocs - m1.Mallocs; d < best {
+			best = d
+		}
+		for _, id := range ids[1:] { // wake the other waiters so that the next repetition starts from an empty table
+			buf[off+4], buf[off+5] = byte(id>>8), byte(id)
+			s.Parse(buf)
+		}
+		time.Sleep(200 * time.Microsecond)
+	}
+	if best == 1<<62 {
+		return
+	}
+	cnt["alloc_measured"]++
+	cnt["alloc_measured_ping_pending"]++
+	if best != 0 {
+		emit(rec{T: "mm", ID: v.ID, Prop: "C16", What: "allocs", View: "Parse", G: v.Status, Exp: "0",
+			Got: fmt.Sprintf("%d allocations in the Parse of an echo reply that wakes a pending ping (minimum over %d repetitions, %d waiter(s) registered, logger=%s)", best, reps, waiters, v.X.Log),
+			Hex: hex.EncodeToString(buf)})
 	}
 }
